@@ -175,4 +175,99 @@ theorem shl8_or (hi lo : Nat) (h : lo < 256) : hi <<< 8 ||| lo = hi * 256 + lo :
   have := Nat.shiftLeft_add_eq_or_of_lt (a := hi) (b := lo) (i := 8) (by omega)
   rw [← this, Nat.shiftLeft_eq]
 
+/-- `l[a:b] = v` at natural positions inside the list -/
+theorem setSlice_nat {α} (l : List α) (a b : Nat) (v : List α) (hab : a ≤ b) (hb : b ≤ l.length) :
+    setSlice l (a : Int) (b : Int) v = l.take a ++ v ++ l.drop b := by
+  unfold setSlice
+  rw [clampBound_ofNat, clampBound_ofNat, Nat.min_eq_left (by omega), Nat.min_eq_left hb]
+  show l.take a ++ v ++ l.drop (max a b) = _
+  rw [Nat.max_eq_right hab]
+
+/-- `l[a::-1]` -/
+theorem sliceRev_none {α} (l : List α) (a : Nat) : sliceRev l (some (a : Int)) none = (l.take (a + 1)).reverse := by
+  unfold sliceRev
+  simp only []
+  have h0 : ¬ ((a : Int) < 0) := by omega
+  simp only [h0, if_false]
+  by_cases h : (a : Int) ≥ (l.length : Int)
+  · simp only [h, if_true]
+    have e1 : ((l.length : Int) - 1 + 1).toNat = l.length := by omega
+    have e2 : ((-1 : Int) + 1).toNat = 0 := by omega
+    rw [e1, e2, List.drop_zero, List.take_length, List.take_of_length_le (by omega)]
+  · simp only [h, if_false]
+    have e1 : ((a : Int) + 1).toNat = a + 1 := by omega
+    have e2 : ((-1 : Int) + 1).toNat = 0 := by omega
+    rw [e1, e2, List.drop_zero]
+
+/-- `l[a:b:-1]` -/
+theorem sliceRev_some {α} (l : List α) (a b : Nat) :
+    sliceRev l (some (a : Int)) (some (b : Int)) = ((l.take (a + 1)).drop (b + 1)).reverse := by
+  unfold sliceRev
+  simp only []
+  have h0 : ¬ ((a : Int) < 0) := by omega
+  have h1 : ¬ ((b : Int) < 0) := by omega
+  simp only [h0, h1, if_false]
+  congr 1
+  by_cases ha : (a : Int) ≥ (l.length : Int) <;> by_cases hb : (b : Int) ≥ (l.length : Int) <;> simp only [ha, hb, if_true, if_false]
+  · have e1 : ((l.length : Int) - 1 + 1).toNat = l.length := by omega
+    rw [e1, List.take_length, List.take_of_length_le (by omega), List.drop_of_length_le (by omega), List.drop_of_length_le (by omega)]
+  · have e1 : ((l.length : Int) - 1 + 1).toNat = l.length := by omega
+    have e2 : ((b : Int) + 1).toNat = b + 1 := by omega
+    rw [e1, e2, List.take_length, List.take_of_length_le (by omega)]
+  · have e1 : ((a : Int) + 1).toNat = a + 1 := by omega
+    have e2 : ((l.length : Int) - 1 + 1).toNat = l.length := by omega
+    rw [e1, e2, List.drop_of_length_le (by simp; omega), List.drop_of_length_le (by simp; omega)]
+  · have e1 : ((a : Int) + 1).toNat = a + 1 := by omega
+    have e2 : ((b : Int) + 1).toNat = b + 1 := by omega
+    rw [e1, e2]
+
+/-- `x[7::-1] + x[15:7:-1]`: both halves reversed (for every length) -/
+theorem revHalves_gen (x : Bytes) :
+    sliceRev x (some 7) none ++ sliceRev x (some 15) (some 7) = (x.take 8).reverse ++ ((x.drop 8).take 8).reverse := by
+  rw [show (7 : Int) = ((7 : Nat) : Int) from rfl, show (15 : Int) = ((15 : Nat) : Int) from rfl, sliceRev_none, sliceRev_some,
+    List.drop_take]
+
+theorem zeros8_gen : List.map (fun (_ : Int) => (0 : Int)) (PyFn.range 0 8) = [0, 0, 0, 0, 0, 0, 0, 0] := by decide
+
+theorem zeros16 : PyFn.zeros 16 = .ok (List.replicate 16 0) := by decide
+
+theorem sum_ints (l : Bytes) : PyFn.sum (PyFn.ints l) = ((l.foldl (· + ·) 0 : Nat) : Int) := by
+  unfold PyFn.sum PyFn.ints
+  have : ∀ (l : Bytes) (acc : Nat), List.foldl (· + ·) (acc : Int) (l.map fun (b : Nat) => (b : Int)) = ((l.foldl (· + ·) acc : Nat) : Int) := by
+    intro l
+    induction l with
+    | nil => intro acc; rfl
+    | cons a l ih => intro acc; simp only [List.map_cons, List.foldl_cons]; rw [← Int.natCast_add, ih]
+  exact this l 0
+
+
+theorem zeros16' : PyFn.zeros 16 = .ok [0, 0, 0, 0, 0, 0, 0, 0, 0, 0, 0, 0, 0, 0, 0, 0] := by decide
+
+theorem pack_Hbe' (n : Nat) (h : n < 65536) : PyFn.pack [.Hbe] [(n : Int)] = .ok [n / 256, n % 256] := by
+  have : ¬ n > 65535 := by omega
+  simp [PyFn.pack, packField_Hbe, this]
+
+theorem pack_Ibe24 (n : Nat) (h : n < 16777216) : PyFn.pack [.Ibe] [(n : Int)] = .ok [0, n / 65536 % 256, n / 256 % 256, n % 256] := by
+  unfold PyFn.pack PyFn.packField
+  have : ¬ ((n : Int) < 0 ∨ (n : Int) ≥ 256 ^ Fmt.Ibe.size) := by simp [Fmt.size]; omega
+  simp only [this, if_false, PyFn.pack, Int.toNat_natCast]
+  simp [toBE]
+  omega
+
+/-- the simp set that evaluates byte string surgery on lists of known length -/
+macro "py_list" : tactic => `(tactic| simp only [setB_nat, setSlice_nat, slice_nat, sliceN, pack_Hbe', pack_Ibe24, sum_ints, Py.bind_ok,
+    List.length_cons, List.length_nil, List.set, List.take, List.drop, List.cons_append, List.nil_append, List.foldl,
+    Nat.lt_add_one, Nat.le_refl, Nat.reduceAdd, Nat.reduceLT, Nat.reduceLeDiff, Nat.reduceSub, List.take_succ_cons, List.take_zero,
+    List.drop_succ_cons, List.drop_zero, Nat.zero_add, Nat.add_zero, *])
+
+theorem pack_BBBH (a b c d : Nat) (ha : a < 256) (hb : b < 256) (hc : c < 256) (hd : d < 65536) :
+    PyFn.pack [.B, .B, .B, .Hbe] [(a : Int), (b : Int), (c : Int), (d : Int)] = .ok [a, b, c, d / 256, d % 256] := by
+  have h1 : ¬ a > 255 := by omega
+  have h2 : ¬ b > 255 := by omega
+  have h3 : ¬ c > 255 := by omega
+  have h4 : ¬ d > 65535 := by omega
+  simp [PyFn.pack, packField_B, packField_Hbe, h1, h2, h3, h4]
+
+theorem ube_lit1 (l : Bytes) (k : Nat) : ube l (k : Int) 1 = ((at0 l k : Nat) : Int) := ube_one l k
+
 end NfcVerif.FnBridge.TagCmd
